@@ -754,6 +754,11 @@ def rule_product_sites(ctx, rep: Report, rid="N1", min_sites=3):
                     if any(not (isinstance(o, (ast.List, ast.Tuple)) and all(isinstance(e, (ast.Tuple, ast.List)) and not e.elts for e in o.elts))
                            for o in others):
                         raise AnalysisError(f"{mi.rel}:{it.lineno}: the product is mixed with other combination sources")
+            comp_owner = None
+            if loop is None and isinstance(parent(it), ast.comprehension) and parent(it).iter is it:
+                # consumed by a comprehension: `[f(x) for x in product(..)]`
+                comp_owner = parent(parent(it))
+                loop = parent(it)
             if loop is None:
                 raise AnalysisError(f"{mi.rel}:{it.lineno}: itertools.product result is not consumed by a loop this rule can follow")
             n += 1
@@ -765,10 +770,10 @@ def rule_product_sites(ctx, rep: Report, rid="N1", min_sites=3):
                     "instantiations must be enumerated as itertools.product(*<decl>.template.instantiations) over "
                     "the parsed lists themselves (declaration order, first parameter slowest, an empty list "
                     "yields nothing); any sorted/reversed/set/filter/slice in between changes which "
-                    "instantiations exist or their order", f"{mi.rel}:{loop.lineno}")
+                    "instantiations exist or their order", f"{mi.rel}:{it.lineno}")
             # the loop variable reaches the instantiation unchanged (list(x) / x)
             var = loop.target.id if isinstance(loop.target, ast.Name) else None
-            uses = [u for u in ast.walk(loop) if isinstance(u, ast.Name) and u.id == var and isinstance(u.ctx, ast.Load)]
+            uses = [u for u in ast.walk(comp_owner if comp_owner is not None else loop) if isinstance(u, ast.Name) and u.id == var and isinstance(u.ctx, ast.Load)]
             def reordered(u):
                 q = parent(u)
                 if isinstance(q, ast.Call) and isinstance(q.func, ast.Name) and q.func.id in ("reversed", "sorted", "set", "filter"):
@@ -780,9 +785,32 @@ def rule_product_sites(ctx, rep: Report, rid="N1", min_sites=3):
                 return False
             ok2 = bool(uses) and not any(reordered(u) for u in uses)
             rep.add(rid, key + ":tuple passed on unchanged", ok2,
-                    f"the product tuple `{var}` must be handed to the instantiation as it is", f"{mi.rel}:{loop.lineno}")
-    if n < min_sites:
-        raise AnalysisError(f"{rep.prop}/{rid}: {n} itertools.product sites, {min_sites} expected")
+                    f"the product tuple `{var}` must be handed to the instantiation as it is", f"{mi.rel}:{it.lineno}")
+    if n < 1:
+        raise AnalysisError(f"{rep.prop}/{rid}: no itertools.product site found")
+    # what must not vanish is the enumeration itself: the class branch and the function branch of instantiate_namespace
+    # each reach a product (in place or through a helper they call)
+    nmi = prog.module(f"{TI}/namespace.py")
+    ins = nmi.functions.get("instantiate_namespace")
+    if ins is None:
+        raise AnalysisError("instantiate_namespace not found")
+
+    def has_product(node, depth=2) -> bool:
+        for c in ast.walk(node):
+            if isinstance(c, ast.Call):
+                if (dotted(c.func) or "").endswith("product"):
+                    return True
+                if depth > 0 and isinstance(c.func, ast.Name) and c.func.id in nmi.functions and c.func.id != ins.name \
+                        and has_product(nmi.functions[c.func.id], depth - 1):
+                    return True
+        return False
+    for kind in ("Class", "GlobalFunction"):
+        br = next((i for i in ast.walk(ins) if isinstance(i, ast.If) and isinstance(i.test, ast.Call) and unparse(i.test.func) == "isinstance"
+                   and unparse(i.test.args[1]).split(".")[-1] == kind), None)
+        if br is None:
+            raise AnalysisError(f"instantiate_namespace: branch for parser.{kind} not found")
+        rep.add(rid, f"product:instantiate_namespace:{kind}:the listed instantiations are enumerated", has_product(ast.Module(body=br.body, type_ignores=[])),
+                f"the parser.{kind} branch never reaches an itertools.product over the template's instantiation lists", f"{nmi.rel}:{br.lineno}")
 
 
 def rule_typedef_path(ctx, rep: Report, rid="N2", min_kinds=3):
